@@ -223,6 +223,11 @@ def c11_epsremove(run):
         if not (ok_a and ok_i and ok_f and m.flags.get("keep_stop") and not m.flags.get("keep_arcs") and not m.flags.get("keep_init")):
             conf = False
             why = why_a or why_i or why_f
+        from props.constructions import overwriting
+        if overwriting(m):
+            # several paths i -a-> j -eps*-> k land on the same new arc (i, a, k): their weights must add up
+            conf = False
+            why = ("overwrites", (overwriting(m)[0],))
     if bad_eps:
         run.obligation(n1, "refuted", detail="an epsilon-labelled arc is copied into the result", replay=dict(replayed=False), signature="epsremove:eps-arc")
     else:
